@@ -212,3 +212,10 @@ P('C04', suites=['fp', 'c04gap'], run_files=['Tie.v', 'TieFp.v'], static_files=B
   trusted=['strconv.ParseFloat compared with the spec round_ne (op fp_strconv); IEEE-754 float64 * and / modelled as round_ne of the exact result'])
 T('C04', 'Coq: round_ne specification (nearest-even in Z, representable / half-ulp / monotone lemmas), faithful model of internal/fp, finite proofs that every row of the regenerated 128-bit powers-of-ten table, the log2 approximation, float64pow10, powtab and leftcheats are exact (TieFp), scanner spec, exact path correct, Eisel-Lemire sound (complete), decimal shifts exact, parse_correct_partial; PARTIAL: the full statement is refuted (parse_correct_full_false) by the two recorded findings',
   _TIE, 'Coq proof (layered: tables, scanner, exact, Eisel-Lemire, decimal) with stage-wise correspondence')
+
+PROPS['C10'].update(run_files=['Tie.v', 'TieWf.v', 'PropsC10.v', 'TieFp.v', 'TieFast.v'], static_files=MACH_STATIC + ['IntFacts.v', 'FpTables.v'])
+PROPS['C16'].update(run_files=['Tie.v', 'TieWf.v'], static_files=MACH_STATIC)
+
+for _p in ('C01', 'C02', 'C13'):
+    PROPS[_p]['run_files'] = PROPS[_p]['run_files'] + ['PropsC02.v']
+    PROPS[_p]['static_files'] = PROPS[_p]['static_files'] + ['ApiFacts.v', 'Ref.v', 'SpecFacts.v']
